@@ -147,6 +147,12 @@ def run(facts, tier, ctx):
                                    "%s touches the experimental-only field %s outside the gated estimators" % (b.id, f)))
     g.require_floor(1 if facts.tag == "F0" else 3, "calls of gate functions in the closure")
     out.append(g)
+    # the `par` feature swaps the single-thread loop for the worker pipeline (config.multithread is on by default): bytes
+    # are independent of that feature only if the two modes agree - the structural clauses of C05 (which include the
+    # state inventory of C10 and write == count_bits of C08)
+    if any(b.module == "par" for b in facts.body_list):
+        from . import c05
+        out += c05.run(facts, tier, ctx)
     return out
 
 
